@@ -57,6 +57,8 @@ class Fixtures:
             f.write(self.small)
         r = cli.run_pna(["--quiet", "create", "one.pna", "--store", "in/s.bin"], d)
         assert r["rc"] == 0, r
+        # the same one-part archive under a name that is itself a first-part name (split-selfnamed-outdir)
+        shutil.copy(os.path.join(d, "one.pna"), os.path.join(d, "x.part1.pna"))
         # parts for concat
         shutil.copy(os.path.join(d, "whole.pna"), os.path.join(d, "p.pna"))
         r = cli.run_pna(["--quiet", "split", "p.pna", "--max-size", "2500"], d)
@@ -134,6 +136,9 @@ def commands(fx, tier):
         Cmd("split-outdir", "split", put("whole.pna"), ["--quiet", "split", "whole.pna", "--out-dir", "o", "--max-size", "2000"], head="o/whole.pna"),
         Cmd("split-1part-outdir", "split", put("one.pna"), ["--quiet", "split", "one.pna", "--out-dir", "o"], head="o/one.pna"),
         Cmd("split-1part-inplace", "split", put("one.pna"), ["--quiet", "split", "one.pna"], head="one.pna"),
+        # the single output part o/x.part1.pna has the very name the finished archive gets: head = part 1 in the model
+        # (outs = [head; head]; fix 067bc08d: the existence test in front of the final rename refused the clean run)
+        Cmd("split-selfnamed-outdir", "split", put("x.part1.pna"), ["--quiet", "split", "x.part1.pna", "--out-dir", "o"], head="o/x.part1.pna"),
         Cmd("concat", "concat", put(*fx.parts), ["--quiet", "concat", "cc.pna", fx.parts[0]]),
         Cmd("stdio-c", "stdio_create", put_inputs, ["--quiet", "experimental", "stdio", "-c", "-f", "sc.pna", "--store", "in/s.bin"]),
         Cmd("extract", "extract", put("tree.pna"), ["--quiet", "extract", "tree.pna", "--out-dir", "out"], dirpos=True),
@@ -227,7 +232,11 @@ def positions(c):
                 seen.add(d)
                 pos.append((d, True))
                 d = os.path.dirname(d)
-    return [(p, isd) for p, isd in pos if p not in c.inputs]
+    out = []
+    for p, isd in pos:
+        if p not in c.inputs and (p, isd) not in out:      # head = part 1 (split-selfnamed-outdir): one position
+            out.append((p, isd))
+    return out
 
 
 def place(root, placed):
@@ -318,7 +327,7 @@ def run_scenario(c, fx, placed, ow):
     changed = [p for p in sorted(before) if after.get(p) != before[p]]
     new = []
     for _, p in outs_phys:
-        if p not in before and p in after and p not in new:
+        if p not in before and p in after:      # listed once per output (the model's new_paths): head = part 1 gives it twice
             new.append(p)
     ex = "TIMEOUT" if r["timeout"] else "PANIC" if r["rc"] == 101 else str(r["rc"])
     outcome = "exit=%s changed=%s new=%s" % (ex, ",".join(changed), ",".join(new))
@@ -362,7 +371,7 @@ def scenarios(cs, tier, rnd):
     """[(cmd, placed list, ow)] — fixed counts per tier"""
     out = []
     main = [c for c in cs if c.name in ("create", "create-split", "create-split-1part", "split", "split-1part-outdir",
-                                        "concat", "stdio-c", "extract", "extract-keepdir-perm", "stdio-x")]
+                                        "split-selfnamed-outdir", "concat", "stdio-c", "extract", "extract-keepdir-perm", "stdio-x")]
     for c in cs:
         out.append((c, [], False))                      # clean run through the model as well
         pos = positions(c)
@@ -459,9 +468,10 @@ def collect(c, tier, seed, replay=None):
 def selfnamed_split(c, seed):
     """`pna split x.part1.pna --out-dir o` whose whole output is ONE part: that part is o/x.part1.pna, the very name the
     finished archive gets (fix 067bc08d: the existence test of 36c3adfe in front of the final rename saw the part just
-    written and refused the run after the output was complete).  Outside Overwrite.v, where head and first part are
-    two paths.  Oracle: a clean run succeeds and leaves exactly that file; a second run without --overwrite fails and
-    leaves it untouched; with --overwrite it succeeds."""
+    written and refused the run after the output was complete).  The single runs go through the model as the command
+    split-selfnamed-outdir (Overwrite.v finish_parts: head = first part); this is the SEQUENCE on one sandbox, on the
+    implementation alone.  Oracle: a clean run succeeds and leaves exactly that file; a second run without --overwrite
+    fails and leaves it untouched; with --overwrite it succeeds."""
     rnd = random.Random(seed + 5)
     msgs = []
     with cli.Sandbox("c20s") as sb:
